@@ -290,7 +290,7 @@ def convo_ref_client(ctx, rng, idx):
             conn.serve_all()
         except BaseException as e:
             exc.append(e)
-    th = threading.Thread(target=serve, daemon=True)
+    th = threading.Thread(target=serve, daemon=True, name="rv-server-conv")
     th.start()
     peer = refpeer.RefPeer(net.a, root=None, compress=rng.random() < .5)
     H = rc.HANDLERS
@@ -424,7 +424,7 @@ def convo_ref_server(ctx, rng, idx):
             peer.serve_until_closed()
         except BaseException as e:
             exc.append(e)
-    th = threading.Thread(target=serve, daemon=True)
+    th = threading.Thread(target=serve, daemon=True, name="rv-server-conv")
     th.start()
     conn = rpyc.VoidService()._connect(Channel(net.a, rng.random() < .5), {})
     bad = []
